@@ -121,7 +121,17 @@ func exploreGate(c *an.Ctx, s *sched, rule string) ([]gateRow, bool) {
 				Inline: func(f *ssa.Function) bool { return f.Pkg == g.Pkg && f != s.schedule },
 			}
 			l.Bound(ex)
-			ex.Atom = func(v ssa.Value) (an.AVal, bool) {
+			// (the dependency may be examined by a helper of the package — a classifier the gate switches on:
+			// inside it the dependency is the helper's parameter, mapped back by the state)
+			ex.AtomSt = func(v ssa.Value, st *an.State) (an.AVal, bool) {
+				isDep := func(x ssa.Value) bool {
+					for _, y := range st.RootChain(x) {
+						if isDep(y) {
+							return true
+						}
+					}
+					return false
+				}
 				switch x := v.(type) {
 				case *ssa.Call:
 					if cc, ok := an.IsCallTo(x, fnReadStatus); ok && isDep(cc.Args[0]) {
@@ -400,6 +410,11 @@ func launchGuard(c *an.Ctx, s *sched, rule string) {
 		if an.TypeIs(a.Type(), "pkg/scheduler", "Stage") {
 			goStage = a
 		}
+	}
+	if goStage == nil && s.carrier != nil {
+		c.OK(rule, key+":identity", s.launch.Pos(), "the goroutine receives an object built for this launch whose stage field is the loop's stage")
+		checkSchedTable(c, s, rule, map[string]bool{"launch": true})
+		return
 	}
 	if goStage == nil {
 		fv, ok := s.bodyStage.(*ssa.FreeVar)
